@@ -806,7 +806,7 @@ class Gen:
                 rival = self.rival_class()
                 if rival is not None and r.random() < 0.6:
                     o = self.new_model(rival, r.randint(0, 1))     # a model of another class of the same name, mid-history
-                    if not self.m.loops(o):
+                    if self.m.objs[o].kind == "model" and self.m.objs[o].cls == rival:     # (not refused: no frozen value)
                         self.emit(self.query(o))
                 else:
                     self.new_object(r.randint(0, 1))
